@@ -1,6 +1,6 @@
 """Python → Lean translation (by template) of the like-term predicates of util.py (property C16).
 
-`is_add_or_sub`, `terms_are_like` and `has_like_terms` must be, statement for statement, the code quoted in
+`is_add_or_sub`, `get_terms`, `terms_are_like` and `has_like_terms` must be, statement for statement, the code quoted in
 TEMPLATES (compared as syntax trees; docstrings, annotations and comments aside).  The emitted Lean is the
 translation of exactly that code:
 
@@ -14,8 +14,8 @@ translation of exactly that code:
     order with the flag `const.parent and is_add_or_sub(const.parent)` and the marker "const_term".
 
 A memo, a different key (e.g. dropping the exponent), a `>=` in place of the marker test are outside the
-fragment = `Untranslatable` = a broken obligation of C16.  `get_terms` / `get_term` stay the hand-written
-`getTerms` / `getTermKey` (tied by the node-level correspondence).
+fragment = `Untranslatable` = a broken obligation of C16.  `get_terms` is rendered as the in-order walk with its closure; `get_term` stays the hand-written
+`getTermKey` (tied by the node-level correspondence).
 """
 import ast
 import os
@@ -28,6 +28,25 @@ TEMPLATES = {
     "is_add_or_sub": """
 def is_add_or_sub(node):
     return isinstance(node, AddExpression) or isinstance(node, SubtractExpression)
+""",
+    "get_terms": """
+def get_terms(expression):
+    results: List[MathExpression] = []
+    root = expression.get_root()
+    if isinstance(root, MultiplyExpression):
+        results.append(root)
+
+    def visit_fn(node, depth, data):
+        nonlocal results
+        if not is_add_or_sub(node):
+            return None
+        if node.left and not is_add_or_sub(node.left):
+            results.append(node.left)
+        if node.right and not is_add_or_sub(node.right):
+            results.append(node.right)
+        return None
+    root.visit_inorder(visit_fn)
+    return [expression] if len(results) == 0 else results
 """,
     "terms_are_like": """
 def terms_are_like(one, two):
@@ -81,6 +100,26 @@ def terms_are_like (one two : Option TermKey) : Bool :=
     else true
   | _, _ => false
 
+/-- the closure `visit_fn` of `get_terms`: what one visited node appends to `results` (a unary node has its operand
+on one side only and is never an addition / subtraction) -/
+def get_terms_visit_fn : Ex → List Ex
+  | .bin _ o l r =>
+    if !(o.isAddSub') then []
+    else (if !l.isAddSub then [l] else []) ++ (if !r.isAddSub then [r] else [])
+  | _ => []
+
+/-- `root.visit_inorder(visit_fn)`: the appends made, in visiting order (the closure never returns STOP) -/
+def get_terms_visit : Ex → List Ex
+  | .const t v => get_terms_visit_fn (.const t v)
+  | .var t x => get_terms_visit_fn (.var t x)
+  | .un t o c => get_terms_visit c ++ get_terms_visit_fn (.un t o c)
+  | .bin t o l r => get_terms_visit l ++ get_terms_visit_fn (.bin t o l r) ++ get_terms_visit r
+
+/-- `util.py`: `get_terms` asked of a root (`expression.get_root()` is the expression itself) -/
+def get_terms (expression : Ex) : List Ex :=
+  let results := (if expression.isOp .mul then [expression] else []) ++ get_terms_visit expression;
+  if results.length == 0 then [expression] else results
+
 /-- first loop of `has_like_terms`: `none` = `return True`, `some seen` = fell through with that set -/
 def has_like_terms_loop1 (seen : List TermKey) : List (Option TermKey) → Option (List TermKey)
   | [] => some seen
@@ -103,7 +142,7 @@ def has_like_terms_loop2 (marker : Bool) : List Bool → Bool
 
 /-- `util.py`: `has_like_terms` (the root has no parent) -/
 def has_like_terms (e : Ex) : Bool :=
-  match has_like_terms_loop1 [] ((getTerms e).map getTermKey) with
+  match has_like_terms_loop1 [] ((get_terms e).map getTermKey) with
   | none => true
   | some _ => has_like_terms_loop2 false (const_parent_flags false e)
 """
